@@ -2501,6 +2501,10 @@ class ProvDocument(ProvBundle):
                     "WARNING: not saving as location " + "is not a local file reference"
                 )
                 return
+            if scheme != "file":
+                # a plain local file name: use it verbatim, '#', '?', ';' and ':'
+                # are legal in file names and must not be interpreted as URL syntax
+                path = location
             fd, name = tempfile.mkstemp()
             stream = os.fdopen(fd, "wb")
             serializer.serialize(stream, **args)
